@@ -50,6 +50,8 @@ def run(ctx):
         rule_progress_first(ctx, M)
         rule_resvec(ctx, M)
         rule_wrap(ctx, M, "C14.WRAP")
+        from . import common as _common
+        _common.rule_no_shadow(ctx, M, {"enumerate", "limit", "take", "map", "for_each", "try_for_each", "collect", "drive", "concurrency_limit", "co", "into_co_stream"}, "C14.WRAP", "ConcurrentStream", receivers=_common.CS_TRAITS)
         adts = {M.consumers[n]["adt"] for n in ("TryForEachConsumer", "ResultVecConsumer") if n in M.consumers}
         with ctx.renamed({"C02.OWN": "C14.OWN"}):
             c02.rule_own(ctx, M, only=lambda cp: cp in adts)
